@@ -284,6 +284,50 @@ func singleStore(a *ssa.Alloc) ssa.Value {
 	return nil
 }
 
+// cellValueAt: the value a multiply-assigned local cell holds at `load`: the latest store that dominates
+// the load, provided no other store to the cell can reach the load without passing that store
+// (named results and reassigned locals that go/ssa keeps in memory because of defer/closures).
+func cellValueAt(a *ssa.Alloc, load *ssa.UnOp) ssa.Value {
+	if load.Parent() != a.Parent() {
+		return nil
+	}
+	var stores []*ssa.Store
+	for _, r := range *a.Referrers() {
+		switch x := r.(type) {
+		case *ssa.Store:
+			if x.Addr != ssa.Value(a) {
+				return nil
+			}
+			stores = append(stores, x)
+		case *ssa.UnOp, *ssa.DebugRef:
+		default:
+			return nil // address escapes (closure capture etc.): another goroutine/closure may write
+		}
+	}
+	var best *ssa.Store
+	for _, st := range stores {
+		if !dominates(st, load) {
+			continue
+		}
+		if best == nil || dominates(best, st) {
+			best = st
+		}
+	}
+	if best == nil {
+		return nil
+	}
+	for _, st := range stores {
+		if st == best || dominates(st, best) {
+			continue
+		}
+		// st is not before best: it must not be able to reach the load
+		if reaches(st, load) {
+			return nil
+		}
+	}
+	return best.Val
+}
+
 // freeVarBinding returns the value bound to a free variable at the (unique) MakeClosure site.
 func freeVarBinding(fv *ssa.FreeVar) ssa.Value {
 	fn := fv.Parent()
@@ -330,6 +374,10 @@ func origin(v ssa.Value) ssa.Value {
 				}
 				if a, ok := base.(*ssa.Alloc); ok {
 					if s := singleStore(a); s != nil {
+						v = s
+						continue
+					}
+					if s := cellValueAt(a, x); s != nil {
 						v = s
 						continue
 					}
